@@ -126,11 +126,13 @@ Definition nout : pyval :=
   PDict [(PStr (s2b "a"), PFloat 4715268809856909312);                                   (* 16777216.0: rounded to single *)
          (PStr (s2b "b"), PList [PNone; PBytes [1; 2]; PFloat 4611686018427387904]);      (* hint stripped, 2 -> 2.0 *)
          (PStr (s2b "c"), PInt 7)].                                                       (* default filled in *)
+Definition na : aval :=
+  ARecord [AFloat 1266679808; AArray [AUnion 0 ANull; AUnion 1 (ABytes [1; 2]); AUnion 2 (ADouble 4611686018427387904)]; AInt 7].
 Example C01_normalisation_example :
-  normalises 9 nopts [] nrec nv nout /\
-  exists a, elab 9 nopts [] nrec nv = WOk a /\ py_of ropts0 [] nrec a = Some nout.
+  normalises 9 nopts [] nrec nv nout /\ elab 9 nopts [] nrec nv = WOk na /\ py_of ropts0 [] nrec na = Some nout.
 Proof.
-  split.
-  - eapply (C01_normalisation 9 nopts [] nrec nv); [vm_compute; reflexivity|reflexivity|vm_compute; reflexivity|vm_compute; reflexivity|vm_compute; reflexivity].
-  - eexists. split; vm_compute; reflexivity.
+  assert (He : elab 9 nopts [] nrec nv = WOk na) by (vm_compute; reflexivity).
+  assert (Hp : py_of ropts0 [] nrec na = Some nout) by (vm_compute; reflexivity).
+  split; [|split; assumption].
+  apply (C01_normalisation 9 nopts [] nrec nv na nout He); [reflexivity|vm_compute; reflexivity|vm_compute; reflexivity|exact Hp].
 Qed.
